@@ -179,3 +179,23 @@ def _h_symbolic_key(s: str) -> bool:
             return True  # '()' - no species named
         return _plain(r.inact_reac) == {inner: 1} and not r.reac
     return _plain(r.reac) == {s: 1} and not r.inact_reac and _plain(r.prod) == {"B": 1}
+
+
+from chempy import ReactionSystem, Substance  # noqa
+
+
+def _h_system_roundtrip(n: int, m: int) -> bool:
+    """
+    pre: 1 <= n <= 1000 and 1 <= m <= 1000
+    post: _
+    """
+    keys = ["(NH4)2SO4", "H+", "X", "Y"]
+    rs = ReactionSystem([Reaction({"(NH4)2SO4": n, "H+": 1}, {"X": m}, checks=()), Reaction({"X": 1}, {"Y": n}, checks=())], keys,
+                        substance_factory=Substance)
+    text = rs.string()
+    back = ReactionSystem.from_string(text, keys, substance_factory=Substance, rxn_parse_kwargs=dict(globals_=False))
+    lines = "# a comment\n\n" + text + "   \n# trailing comment\n"
+    back2 = ReactionSystem.from_string(lines, keys, substance_factory=Substance, rxn_parse_kwargs=dict(globals_=False))
+    return (back.rxns == rs.rxns and back2.rxns == rs.rxns and list(back.substances) == keys
+            and text == ((str(n) + " ") if n != 1 else "") + "(NH4)2SO4 + H+ -> " + ((str(m) + " ") if m != 1 else "") + "X\nX -> "
+            + ((str(n) + " ") if n != 1 else "") + "Y\n")
